@@ -216,6 +216,14 @@ def _harvest_one(dbm, t, v, pending_ne, nonneg):
             # `slice.get(i)?` on an Option: Continue <=> Some
             inner = inner[1]
             vn = 'Some' if vn == 'Continue' else 'None'
+        if vn in ('Some', 'None') and inner[0] == 'call' and isinstance(inner[1], str) and inner[1].startswith('core::num::') and inner[1].endswith('::checked_sub') and len(inner[2]) == 2:
+            # a.checked_sub(b) is Some  <=>  b <= a   (unsigned operands)
+            a, b = inner[2]
+            if nonneg:
+                dbm.assume_nonneg(a)
+                dbm.assume_nonneg(b)
+            dbm.assume_cmp('Le', b, a, 1 if vn == 'Some' else 0)
+            return
         if vn in ('Some', 'None'):
             g = _get_call(inner)
             if g:
